@@ -1130,8 +1130,9 @@ class _ThreadScenario:
     def build(self, ex):
         lock = ex.lock("wrapper-lock")
         p = self.params
+        clock = FakeClock()
         if self.wrapper == "TSC/LRUCache":
-            inner = cache_mod.LRUCache(max_entries=p["cap"], ttl=0, time_fn=_const0)
+            inner = cache_mod.LRUCache(max_entries=p["cap"], ttl=p.get("ttl", 0), time_fn=clock.now)
             w = cache_mod.ThreadSafeCache(inner, lock=lock)
         elif self.wrapper == "TSC/DetLRU":
             inner = lru_det_mod.DeterministicLRU(p["cap"])
@@ -1142,7 +1143,10 @@ class _ThreadScenario:
         else:
             raise HarnessError("unknown wrapper %r" % self.wrapper)
         for op in self.setup:
-            self.do_impl(inner, op)
+            if op[0] == "adv":
+                clock.advance(op[1])
+            else:
+                self.do_impl(inner, op)
         return w, inner, lock
 
     @staticmethod
@@ -1169,13 +1173,16 @@ class _ThreadScenario:
     def model(self):
         p = self.params
         if self.wrapper == "TSC/LRUCache":
-            return RefLRUCache(p["cap"], 0, FakeClock())
+            return RefLRUCache(p["cap"], p.get("ttl", 0), FakeClock())
         if self.wrapper == "TSC/DetLRU":
             return RefDetLRU(p["cap"], True, True)
         return RefLRUBytes(p["me"], p["mb"])
 
     def do_model(self, m, op, through_wrapper=True):
         if self.wrapper == "TSC/LRUCache":
+            if op[0] == "adv":
+                m.ns.clock.advance(op[1])
+                return None
             if op[0] == "put":
                 m.set(op[1], op[2])
                 return None
@@ -1204,7 +1211,8 @@ class _ThreadScenario:
     def final_model(self, m):
         if self.wrapper == "TSC/LRUCache":
             s = m.stats()
-            return (norm(m.ns.items_raw()), len(m.ns.d), s["hits"], s["misses"])
+            live = norm(m.items()[0])  # the final read prunes expired entries, like LRUCache.items()
+            return (live, len(m.ns.d), s["hits"], s["misses"])
         if self.wrapper == "TSC/DetLRU":
             return (norm(m.items()), len(m.d))
         return (norm(m.items()), norm(list(m.d.keys())), len(m.d), m.total())
@@ -1305,14 +1313,27 @@ def thread_scenarios(thorough: bool) -> List[dict]:
         al = THREAD_ALPHABET[wrapper]
         full, small = al["full"], al["small"]
         primary = (wrapper, params) in configs[:2]
+        first = (wrapper, params) == configs[0]
         # (1,1): every unordered pair of single operations, with and without a pre-filled entry
         for setup in al["setup"]:
             for i, j in itertools.combinations_with_replacement(range(len(full)), 2):
                 out.append({"kind": "threads", "wrapper": wrapper, "params": params, "setup": setup,
                             "programs": [[full[i]], [full[j]]], "bound": 3 if thorough else 2})
+        if wrapper == "TSC/LRUCache" and params == {"cap": 1}:
+            # an expired entry is waiting to be pruned by the first read (TTL 1, entry age 5)
+            xp = {"cap": 1, "ttl": 1}
+            xs = [["put", "a", "A0"], ["adv", 5]]
+            for i, j in itertools.combinations_with_replacement(range(len(full)), 2):
+                out.append({"kind": "threads", "wrapper": wrapper, "params": xp, "setup": xs,
+                            "programs": [[full[i]], [full[j]]], "bound": 3 if thorough else 2})
+            if thorough:
+                for p0 in itertools.product(range(len(small)), repeat=2):
+                    for q in range(len(full)):
+                        out.append({"kind": "threads", "wrapper": wrapper, "params": xp, "setup": xs,
+                                    "programs": [[small[p0[0]], small[p0[1]]], [full[q]]], "bound": 2})
         # (2,1): one thread does two operations
-        a2 = full if thorough else small
-        for setup in (al["setup"] if thorough else al["setup"][:1]):
+        a2 = full if (thorough and primary) else small
+        for setup in (al["setup"] if (thorough and (first or not primary)) else al["setup"][:1]):
             for p0 in itertools.product(range(len(a2)), repeat=2):
                 for q in range(len(a2)):
                     if not primary and not thorough and (p0[0] + p0[1] + q) % 2:
@@ -1324,7 +1345,7 @@ def thread_scenarios(thorough: bool) -> List[dict]:
             if not primary and not thorough:
                 continue
             out.append({"kind": "threads", "wrapper": wrapper, "params": params, "setup": [],
-                        "programs": [[small[t]] for t in tri], "bound": 2 if (thorough and primary) else 1})
+                        "programs": [[small[t]] for t in tri], "bound": 2 if (thorough and first) else 1})
         if thorough:
             # (2,2) on the small alphabet
             for p0, p1 in itertools.combinations_with_replacement(list(itertools.product(range(len(small)), repeat=2)), 2):
@@ -1520,7 +1541,11 @@ def check_merge(case, st: Stats = None):
         allowed.append((o2, norm(s2)))
     res = []
     first = None
-    variants = [case["variant"]] if case.get("variant") else _merge_variants(case)
+    if case.get("variant"):  # replay: the canonical worker list first, then the stored permutation
+        stored = [(int(w), list(o)) for w, o in case["variant"]]
+        variants = [next(iter(_merge_variants(case))), stored]
+    else:
+        variants = _merge_variants(case)
     for variant in variants:
         got_out, got_state = _run_merge(case, variant)
         if st is not None:
